@@ -129,7 +129,7 @@ theorem zyRev_append_rev (F base : List Pk) :
     simp only [List.reverse_cons, List.append_assoc, List.singleton_append]
     obtain ⟨h1, h2⟩ := ih (f :: base)
     rw [h1, h2]
-    simp only [zyRev, zyFwd, lastYF, and_true]
+    simp only [zyRev, zyFwd, lastYF]
     have hy : headY (f :: base) = f.y := rfl
     rw [hy]
     cases (f.z == headY base) <;> cases zyFwd f.y F <;> cases zyRev base <;> exact ⟨rfl, rfl⟩
@@ -256,7 +256,7 @@ theorem fragPks_facts (mtu : Nat) (isLast : Bool) (hm : 2 ≤ mtu) (hs : mtu ≤
         simp [flagElems]
       · rw [q4, q5]
         by_cases h : rem.drop (pieceLen mtu isLast rem) = []
-        · simp [h, fragPks]
+        · simp [h]
           cases f <;> simp [fragPks, zyFwd]
         · have : (rem.drop (pieceLen mtu isLast rem)).isEmpty = false := List.isEmpty_eq_false_iff.mpr h
           simp [this, i3]
